@@ -7,6 +7,11 @@ from hypothesis import strategies as st  # noqa: F401  (re-exported)
 from . import env
 
 
+import warnings
+
+warnings.filterwarnings("ignore", category=hypothesis.errors.HypothesisWarning)
+
+
 class _Fail(Exception):
     pass
 
